@@ -463,7 +463,7 @@ def op_subtract_metabolites(E, m, S):
 
 def op_imul(E, m, S):
     r = _rxn(E, m, pool=("R1",))
-    k = E.pick(S.tag("factor"), [2, 0.5, -1, -4])
+    k = E.pick(S.tag("factor"), [2, 0.5, -1, -4, 0])
 
     def f():
         rr = r
@@ -522,7 +522,8 @@ def op_rule(E, m, S):
 
 def op_add_reactions(E, m, S):
     kinds = ["new", "new-with-new-gene", "copy-of-R1", "existing-id", "uses-copy-of-met", "id-with-blank", "two-sharing-a-new-met-id"]
-    if getattr(S, "removed", None):
+    gone = [r for r in (getattr(S, "removed", []) + getattr(S, "detached", [])) if r.id not in m.reactions]
+    if gone:
         kinds.append("previously-removed")
     kind = E.pick(S.tag("kind"), kinds)
     if kind == "two-sharing-a-new-met-id":
@@ -539,7 +540,7 @@ def op_add_reactions(E, m, S):
         _try(S, "add_reactions", lambda: m.add_reactions([ra, rb]), kind=kind, ref=ref2)
         return
     if kind == "previously-removed":
-        r = S.removed[-1]
+        r = gone[-1]        # also a reaction removed earlier inside the still open context
         _try(S, "add_reactions", lambda: m.add_reactions([r]), kind=kind)        # no reference: the object kept its own state
         return
     if kind in ("new", "new-with-new-gene", "uses-copy-of-met"):
@@ -806,6 +807,17 @@ def op_pfba_helpers(E, m, S):
     S.user_cons |= new        # documented additions of the helper
 
 
+def op_fix_objective(E, m, S):
+    from cobra.util.solver import fix_objective_as_constraint
+    if any(vsym.is_sym(c) for r in m.reactions for c in r._metabolites.values()):
+        return      # the helper optimises: symbolic stoichiometric coefficients would make that LP non-linear
+    n0 = set(lp_snapshot(m)["constraints"])
+    frac = E.pick(S.tag("fraction"), [1, 0.5])
+    _try(S, "fix_objective_as_constraint", lambda: fix_objective_as_constraint(m, fraction=frac), exc=DOC_EXC, frac=frac)
+    after = set(lp_snapshot(m)["constraints"])
+    S.user_cons = (S.user_cons & after) | (after - n0)      # the helper replaces an earlier constraint of the same name
+
+
 OPS = {
     # name: (function, reversible per docstring/@resettable (C03 alphabet), in the sub-alphabet)
     "lower_bound": (op_lower_bound, True, True),
@@ -840,6 +852,7 @@ OPS = {
     "repair": (op_repair, False, False),
     "copy": (op_copy, False, False),
     "detached_edit": (op_detached_edit, False, False),
+    "fix_objective": (op_fix_objective, True, False),
 }
 SUB = [k for k, v in OPS.items() if v[2]]
 REVERSIBLE = [k for k, v in OPS.items() if v[1]]
